@@ -173,27 +173,48 @@ func (s *Server) DidOpen(ctx context.Context, params *protocol.DidOpenTextDocume
 	return nil
 }
 
+// ContentChange is one content change of a didChange notification. Range is nil when the
+// client sent no range, which means that Text replaces the whole document.
+type ContentChange struct {
+	Range *protocol.Range
+	Text  string
+}
+
 func (s *Server) DidChange(ctx context.Context, params *protocol.DidChangeTextDocumentParams) error {
-	if doc, ok := s.documents.Load(params.TextDocument.URI); ok {
+	// protocol.TextDocumentContentChangeEvent cannot tell a missing range from an empty
+	// range at 0:0; callers that still have the raw message use ApplyContentChanges.
+	changes := make([]ContentChange, len(params.ContentChanges))
+	for i, change := range params.ContentChanges {
+		changes[i] = ContentChange{Text: change.Text}
+		if !isFullChange(change.Range) {
+			r := change.Range
+			changes[i].Range = &r
+		}
+	}
+	return s.ApplyContentChanges(ctx, params.TextDocument.URI, changes)
+}
+
+func (s *Server) ApplyContentChanges(ctx context.Context, docURI protocol.DocumentURI, changes []ContentChange) error {
+	if doc, ok := s.documents.Load(docURI); ok {
 		content, ok := doc.(string)
 		if !ok {
 			return nil
 		}
-		for _, change := range params.ContentChanges {
-			if isFullChange(change.Range) {
+		for _, change := range changes {
+			if change.Range == nil {
 				content = change.Text
 			} else {
-				content = applyChange(content, change.Range, change.Text)
+				content = applyChange(content, *change.Range, change.Text)
 			}
 		}
-		s.documents.Store(params.TextDocument.URI, content)
+		s.documents.Store(docURI, content)
 		if s.workspace != nil {
-			if path := uriToPath(params.TextDocument.URI); path != "" {
+			if path := uriToPath(docURI); path != "" {
 				s.workspace.UpdateFile(path, content)
 				s.loader.InvalidateFile(path)
 			}
 		}
-		go s.publishDiagnostics(ctx, params.TextDocument.URI, content)
+		go s.publishDiagnostics(ctx, docURI, content)
 	}
 	return nil
 }
